@@ -21,6 +21,10 @@ def parseOp : List String → Option Op
   | ["repay", v, ve] => do pure (.repayDebt (← parseInt? v) (← parseInt? ve))
   | ["deadline", ep, es, p, v] => do
     pure (.deadline (← parseNats? ep) (← parseNats? es) (← parseInt? p) (← parseInt? v))
+  | ["terminate", ps, p, v] => do
+    pure (.terminate (← parseNats? ps) (← parseInt? p) (← parseInt? v))
+  | ["consensusfault", p, r, v, ok] => do
+    pure (.consensusFault (← parseInt? p) (← parseInt? r) (← parseInt? v) (← parseBool? ok))
   | _ => none
 
 /-- `m <idx> <others> <op…>` applies an op to miner idx; `set <idx> balance pcd lf ip debt net unacc
